@@ -12,6 +12,7 @@ var specs = []Spec{
 	{ID: "C02", Level: "exploration", MinDistinct: 50, Engines: []Engine{
 		{Name: "seq", Pkg: "./mon/c02", Procs: 1},
 		{Name: "coop", Pkg: "./mon/chainco", Env: []string{"VERIF_PROP=C02"}},
+		{Name: "par", Pkg: "./mon/parcap", Race: true, Env: []string{"VERIF_PROP=C02"}, DeathSig: "C02/par:process-died"},
 	}},
 	{ID: "C03", Level: "exploration", MinDistinct: 50, Engines: []Engine{
 		{Name: "seq", Pkg: "./mon/c03", Procs: 1},
